@@ -74,6 +74,8 @@ def parseSpec (s : Str) : Option (Flags × Option Nat × Option Nat × Char) :=
 def fmtExpect (x : Val) (spec : Str) : Option Str :=
   match parseSpec spec, x with
   | some (f, w, p, v), .fin n c e =>
+    -- the properties speak of precisions and widths up to 100000
+    if w.getD 0 > 100000 || p.getD 0 > 100000 then none else
     if v == 'e' || v == 'E' || v == 'f' || v == 'F' || v == 'g' || v == 'G' then
       some (fmtSpec f v p w n (sliceOf c e))
     else none
